@@ -138,4 +138,14 @@ MUTANTS = [
          old='    package == current_package || package == "Builtin" || imports.contains(package)\n', new='    package == current_package || package == "Builtin" || !imports.contains(package)\n'),
     dict(name="pkgallow-method-drops-imports", prop="C16", units=["u_pkgallow"], file="crates/compiler/src/typer/name_resolution.rs", expect=1,
          old='        package == self.current_package || package == "Builtin" || self.imports.contains(package)', new='        package == self.current_package || package == "Builtin"'),
+    # ---- patches: harmless refactorings and the kept seeded changes (seeded/<id>/patch.diff)
+    dict(name="link-topo-order-harmless", prop="C15", units=["u_link"], patch="tools/patches/link_topo_order_harmless.diff", expect=0),
+    dict(name="seed-C15-memo-1", prop="C15", units=["u_link"], patch="seeded/C15-link-memoized-dep-check/patch.diff", expect=1),
+    dict(name="seed-C15-memo-2", prop="C15", units=["u_link"], patch="seeded/C15-link-memoized-dep-check-2/patch.diff", expect=1),
+    dict(name="seed-C04-match-arm-hang", prop="C04", units=["u_grammar"], patch="seeded/C04-match-arm-recovery-hang/patch.diff", expect=1),
+    dict(name="seed-C04-closure-param-hang", prop="C04", units=["u_grammar"], patch="seeded/C04-closure-param-recovery-hang/patch.diff", expect=1),
+    dict(name="seed-C12-eof-fuel", prop="C12", units=["u_pcore"], patch="seeded/C12-eof-through-fuel/patch.diff", expect=1),
+    dict(name="seed-C12-last-token-dup", prop="C12", units=["u_tree"], patch="seeded/C12-build-tree-last-token-dup/patch.diff", expect=1),
+    dict(name="seed-C09-dyncall", prop="C09", units=["u_ceffect"], patch="seeded/C09-dyncall-effect-dropped/patch.diff", expect=1),
+    dict(name="seed-C16-orphan-prefix", prop="C16", units=["u_orphan"], patch="seeded/C16-orphan-prefix-locality/patch.diff", expect=1),
 ]
